@@ -21,6 +21,50 @@ func joinS(elems []string, sep string) string {
 //@   pure
 //@   ensures def: r == joinS(elems, sep)
 
+// noByte: s is free of the byte c.
+func noByte(s string, c byte) bool {
+	return vForallIn(0, len(s), func(j int) bool { return s[j] != c })
+}
+
+// splitS: strings.Split with a one-byte separator (documentation: "slices s into all substrings
+// separated by sep"; no separator: the one-element slice [s]).
+func splitS(s string, d byte) []string {
+	if indexB(s, d) < 0 {
+		return []string{s}
+	}
+	return vCat([]string{s[:indexB(s, d)]}, splitS(s[indexB(s, d)+1:], d))
+}
+
+//@ extern func strings.Split(s string, sep string) (r []string)
+//@   pure
+//@   ensures one: len(sep) == 1 ==> vSeqEq(r, splitS(s, sep[0]))
+
+// The first occurrence of d in a + d + rest is at len(a) when a is free of d.
+//@ lemma indexBCat(a string, d byte, rest string)
+//@   requires free: vForallIn(0, len(a), func(j int) bool { return a[j] != d })
+//@   ensures at: indexB(a + str1(d) + rest, d) == len(a)
+//@   decreases len(a)
+//@   induct a[1:], d, rest
+//@   trigger indexB(a + str1(d) + rest, d)
+
+// A text free of d has no occurrence of d.
+//@ lemma indexBNone(a string, d byte)
+//@   requires free: vForallIn(0, len(a), func(j int) bool { return a[j] != d })
+//@   ensures none: indexB(a, d) < 0
+//@   decreases len(a)
+//@   induct a[1:], d
+//@   trigger indexB(a, d)
+
+// Splitting a joined list gives the list back (non-empty list, items free of the separator).
+//@ lemma splitJoin(items []string, d byte)
+//@   requires some: len(items) > 0
+//@   requires free: vForallIn(0, len(items), func(k int) bool { return vTrig(items[k]) && noByte(items[k], d) })
+//@   ensures inv: vSeqEq(splitS(joinS(items, str1(d)), d), items)
+//@   decreases len(items)
+//@   induct items[1:], d
+//@   uses indexBCat, indexBNone
+//@   trigger splitS(joinS(items, str1(d)), d)
+
 // asciiStr: every byte is below 0x80.
 func asciiStr(s string) bool {
 	return vForallIn(0, len(s), func(j int) bool { return s[j] < 0x80 })
